@@ -129,7 +129,9 @@ class ExprMixin(object):
 def _render(operand, render, lhsofpow=False):
     # an unary expression (or a negative number left of **) nested inside another
     # operator must be parenthesised, otherwise the text binds differently than the tree
-    text = render(operand)
+    # constants are always rendered with repr: the str() form of an expression is inlined
+    # into generated code as well, where "hi" must not turn into the bare name hi
+    text = render(operand) if isinstance(operand, ExprMixin) else repr(operand)
     if isinstance(operand, UniExpr):
         return "(%s)" % (text,)
     if lhsofpow and isinstance(operand, (int, float)) and operand < 0:
@@ -247,7 +249,7 @@ class FuncPath(ExprMixin):
         if self.__operand is None:
             return "%s_" % (self.__func.__name__)
         else:
-            return "%s_(%s)" % (self.__func.__name__, self.__operand)
+            return "%s_(%s)" % (self.__func.__name__, self.__operand if isinstance(self.__operand, ExprMixin) else repr(self.__operand))
 
     def __call__(self, operand, *args):
         if self.__operand is None:
